@@ -56,6 +56,9 @@ pub fn write_cpu_information(sys_info: &mut MDRawSystemInfo) -> Result<()> {
     let cpuinfo_file = std::fs::File::open(path::PathBuf::from("/proc/cpuinfo"))?;
 
     let mut vendor_id = String::new();
+    // Processors that are offline are not listed, the others keep their ids: the number of
+    // processors is the number of entries, not the last id plus one.
+    let mut processors = 0i32;
     for line in BufReader::new(cpuinfo_file).lines() {
         let line = line?;
         // Expected format: <field-name> <space>+ ':' <space> <value>
@@ -86,6 +89,9 @@ pub fn write_cpu_information(sys_info: &mut MDRawSystemInfo) -> Result<()> {
                 if let Ok(v) = value.parse() {
                     entry.value = v;
                     entry.found = true;
+                    if field == "processor" {
+                        processors += 1;
+                    }
                 } else {
                     continue;
                 }
@@ -101,10 +107,9 @@ pub fn write_cpu_information(sys_info: &mut MDRawSystemInfo) -> Result<()> {
     if !cpu_info_table.iter().all(|x| x.found) {
         return Err(CpuInfoError::NotAllProcEntriesFound);
     }
-    // cpu_info_table[0] holds the last cpu id listed in /proc/cpuinfo,
-    // assuming this is the highest id, change it to the number of CPUs
-    // by adding one.
-    cpu_info_table[0].value += 1;
+    // cpu_info_table[0] holds the last cpu id listed in /proc/cpuinfo; what is recorded is the
+    // number of processors listed.
+    cpu_info_table[0].value = processors;
 
     sys_info.number_of_processors = cpu_info_table[0].value as u8; // TODO: might not work on special machines with LOTS of CPUs
     #[cfg(any(target_arch = "x86_64", target_arch = "x86"))]
